@@ -40,10 +40,10 @@ from __future__ import annotations
 import random
 from typing import Any, Iterator
 
-SHAPES = ('single:A', 'single:B', 'blockdiag', 'comp:A', 'neg:B', 'nested')
+SHAPES = ('single:A', 'single:B', 'blockdiag', 'blockdict', 'method:B', 'expr:AB', 'expr:A2', 'comp:A', 'neg:B', 'nested')
 MODES = ('eager', 'jit', 'fjit')
 APPLY_FAULTS = (None, 'seam-mem', 'seam-rt', 'stdout')
-ROUNDTRIPS = ('flatten', 'reduce', 'compose-reduce')
+ROUNDTRIPS = ('flatten', 'reduce', 'compose-reduce', 'pair-reduce')
 SLEEPS = (0, 0, 0.001, 0.01, 0.5, 1, 10, 60)
 RAISES_EXC = ('exc', 'exc', 'value', 'key', 'timeouterr', 'mem')
 RAISES_BASE = ('base', 'base', 'genexit', 'genexit', 'kbd', 'sysexit', 'cancelled')
@@ -186,6 +186,8 @@ def gen_swarm(rng: random.Random, profile: dict) -> dict:
         'tower': (not heavy) and rng.random() < 0.04,
         'heavy': heavy,
         'fine': fine,
+        # a third of the fine runs pre-empt between bytecodes instead of between lines
+        'ultra': fine and rng.random() < 0.33,
         'strategy': rng.choice(['random', 'random', 'pct', 'boundary']),
         'p_switch': rng.choice([0.1, 0.3, 0.6, 1.0]),
         'p_line': rng.choice([0.02, 0.1, 0.3, 0.6]),
@@ -228,7 +230,9 @@ class _Gen:
                     kw[name] = 'R'
                 elif 'stdout' in self.faults and heavy and roll < 0.2:
                     kw[name] = 'D'
-                elif roll > 0.75:
+                elif roll > 0.93:
+                    kw[name] = 'D'  # the library default callback given explicitly (a reset to the default)
+                elif roll > 0.72:
                     # one of two callback objects shared by every block of the run that picks it: blocks
                     # whose settings repeat, or equal what is already active ("change nothing")
                     kw[name] = rng.choice(['k0', 'k0', 'k1'])
@@ -249,7 +253,8 @@ class _Gen:
                 kw[name] = (rng.random() < 0.5) if allow_true else False
             else:
                 # 'S' is one dict object shared by every block of the run that uses it
-                kw[name] = rng.choice(['E', 'P', 'E', 'P', 'Y', 'PY', 'S', 'S']) if heavy else rng.choice(['E', 'P', 'S'])
+                # 'Z' is a literally empty dict: the default value given explicitly (and falsy)
+                kw[name] = rng.choice(['E', 'P', 'E', 'P', 'Y', 'PY', 'S', 'S', 'Z']) if heavy else rng.choice(['E', 'P', 'S', 'Z'])
         return kw
 
     def tower(self) -> list:
@@ -340,7 +345,7 @@ class _Gen:
             return ['READ'], 1
         if kind == 'CREATE':
             self.creates += 1
-            shapes = list(SHAPES) if heavy else ['single:A', 'single:B', 'blockdiag', 'comp:A', 'neg:B']
+            shapes = list(SHAPES) if heavy else list(SHAPES[:-1])
             return ['CREATE', rng.choice(shapes)], 1
         if kind == 'APPLY':
             modes = ['eager'] * 4 + (['jit', 'jit', 'fjit', 'fjit', 'fjit'] if sw['jit'] else [])
